@@ -1273,10 +1273,10 @@ pub fn required_probes(prop: &str, tier: Tier) -> Vec<&'static str> {
         "C03" => vec!["probe.quiescent_with_backlog", "probe.quiescence_judged"],
         "C01" => vec!["probe.queued_conn_released_on_shutdown", "probe.race_window_progress"],
         "C04" => vec!["probe.rr_window_checked", "probe.rr_window_from_quiescence", "probe.bitset_runs", "probe.rr_cursor_checked"],
-        "C05" => vec!["probe.backoff_armed", "probe.per_connection_error_handled", "probe.commands_acknowledged", "cmd.pause", "cmd.resume", "probe.two_listeners_backing_off"],
-        "C06" => vec!["probe.stop_completed", "probe.graceful_stop_with_connections", "probe.forced_stop_with_connections", "probe.forced_stop_judged", "probe.second_stop", "probe.stop_future_dropped", "probe.stop_after_server_end", "probe.stop_window_progress"],
-        "C07" => vec!["probe.call_after_ready_round", "probe.service_restarted", "probe.queue_order_checked"],
-        "C08" => vec!["probe.send_failed_discovered", "probe.replacement_in_rotation", "probe.replacement_served"],
+        "C05" => vec!["probe.backoff_armed", "probe.per_connection_error_handled", "probe.commands_acknowledged", "cmd.pause", "cmd.resume", "probe.two_listeners_backing_off", "probe.pause_state_judged"],
+        "C06" => vec!["probe.stop_completed", "probe.graceful_stop_with_connections", "probe.forced_stop_with_connections", "probe.forced_stop_judged", "probe.second_stop", "probe.stop_future_dropped", "probe.stop_after_server_end", "probe.stop_window_progress", "fault.worker_frozen"],
+        "C07" => vec!["probe.call_after_ready_round", "probe.service_restarted", "probe.queue_order_checked", "probe.busy_after_call", "probe.connection_burst"],
+        "C08" => vec!["probe.send_failed_discovered", "probe.replacement_in_rotation", "probe.replacement_served", "fault.factory_fails_on_restart"],
         _ => vec![],
     }
 }
